@@ -94,9 +94,12 @@ def import_from_path(module_name: str, file_path: Path) -> Callable[[], Model]:
     assert spec is not None  # noqa: S101
     module = util.module_from_spec(spec)
     sys.modules[module_name] = module
-    loader = spec.loader
-    assert loader is not None  # noqa: S101
-    loader.exec_module(module)
+    # The file is re-written for every document. Python's bytecode cache only looks
+    # at the size and the whole-second timestamp of a source file, so a document that
+    # is read again after a small change would get the code of its previous version:
+    # compile what is in the file now.
+    code = compile(file_path.read_text(), str(file_path), "exec")
+    exec(code, module.__dict__)  # noqa: S102
     return module.create_model
 
 
